@@ -112,7 +112,7 @@ def get_type_graph(t: type) -> graphlib.TopologicalSorter[TypeNode]:
     u = inspection.unwrap(t)
     root = TypeNode(t, u)
     stack = collections.deque([root])
-    visited = {root.type}
+    visited = {root.type, root.unwrapped}
     while stack:
         parent = stack.popleft()
         parent_unwrapped = inspection.unwrap(parent.type)
